@@ -107,7 +107,11 @@ impl std::hash::BuildHasher for WeakState {
 /// Build the real sequence for a model sequence by parsing its text.
 pub fn mk<C: CI>(codes: &[u8]) -> Seq<C> {
     let t = C::alpha().text(codes);
-    Seq::<C>::try_from(t.as_str()).unwrap_or_else(|e| panic!("harness: model text {t:?} rejected: {e:?}"))
+    let s = Seq::<C>::try_from(t.as_str()).unwrap_or_else(|e| panic!("harness: model text {t:?} rejected: {e:?}"));
+    if exact_fit_on() {
+        return exact_copy::<C>(&s);
+    }
+    s
 }
 /// Observe the codes of a real slice (through iteration and `to_bits`).
 /// A decode that panics (invalid bit pattern) yields a marker vector that equals no model value.
@@ -189,6 +193,8 @@ pub struct Padded<C: CI> {
 impl<C: CI> Padded<C> {
     pub fn new(rng: &mut Rng, pad: usize, codes: &[u8], tail: usize) -> Self {
         let a = C::alpha();
+        // exact-fit mode: nothing after the window, and `mk` gives the parent an allocation without spare words
+        let tail = if exact_fit_on() { 0 } else { tail };
         let mut all = rand_codes(rng, a, pad);
         all.extend_from_slice(codes);
         all.extend(rand_codes(rng, a, tail));
@@ -366,4 +372,104 @@ pub fn iterator_shapes<T: Copy + 'static>(items: &[T], mut f: impl FnMut(&'stati
     let mut p = items.iter().copied().filter(|_| true).peekable();
     let _ = p.peek();
     f("peeked", &mut p);
+}
+
+// ------------------------------------------------------------------ exact-fit operands
+//
+// Sanitizer-directed operands: sequences whose backing allocation is exactly as large as their
+// content (no spare capacity, no tail symbols after the window), so that any access past the last
+// word / last byte of the content is an access past the allocation, which Miri, ASan and memcheck
+// report.  While the mode is on, `mk` returns exact-capacity sequences and `Padded::new` ignores
+// the requested tail.  The per-case functions of the monitors run unchanged.
+
+thread_local! {
+    static EXACT_FIT: std::cell::Cell<bool> = const { std::cell::Cell::new(false) };
+    static EXACT_BUILT: std::cell::Cell<(u64, u64)> = const { std::cell::Cell::new((0, 0)) };
+}
+pub struct ExactFitGuard(bool);
+impl Drop for ExactFitGuard {
+    fn drop(&mut self) {
+        EXACT_FIT.with(|c| c.set(self.0));
+    }
+}
+/// switch exact-fit mode on until the guard is dropped (also on unwinding)
+pub fn exact_fit_mode() -> ExactFitGuard {
+    ExactFitGuard(EXACT_FIT.with(|c| c.replace(true)))
+}
+pub fn exact_fit_on() -> bool {
+    EXACT_FIT.with(|c| c.get())
+}
+/// (sequences built in exact-fit mode, of which the capacity hook confirmed "no spare word")
+pub fn exact_fit_stats() -> (u64, u64) {
+    EXACT_BUILT.with(|c| c.get())
+}
+/// a copy of `s` whose allocation holds exactly ceil(bits/64) words
+pub fn exact_copy<C: CI>(s: &SeqSlice<C>) -> Seq<C> {
+    let e: Seq<C> = s.to_owned();
+    let bits = e.len() * C::BITS as usize;
+    let tight = e.verif_capacity_bits() == bits.div_ceil(64) * 64;
+    EXACT_BUILT.with(|c| {
+        let (a, b) = c.get();
+        c.set((a + 1, b + tight as u64));
+    });
+    e
+}
+/// (length, pad) pairs, most interesting first, for a codec of `bits` bits per symbol: the window
+/// [pad, pad+len) of a parent of exactly pad+len symbols.  W = symbols in the smallest whole number of words.
+pub fn exact_fit_cases(bits: u8) -> Vec<(usize, usize)> {
+    let b = bits as usize;
+    let mut g = b;
+    let mut r = 64usize;
+    while r != 0 {
+        let t = g % r;
+        g = r;
+        r = t;
+    }
+    let w = 64 / g; // symbols that fill whole words exactly (w*b is a multiple of 64)
+    let pw = 64 / b; // symbols that fit one word
+    let mut v = vec![(w, 0), (2 * w, 0), (w, w), (w - 1, 1), (1, w - 1), (0, w), (w, 2 * w)];
+    if pw != w {
+        v.push((pw, 0));
+        v.push((pw, w));
+    }
+    v.push((w + 1, w - 1));
+    v.push((4 * w, 0));
+    v.push((5 * w - 3, 3));
+    v
+}
+fn exact_fit_small(bits: u8, w: usize, n: usize, p: usize) -> bool {
+    n + p <= 100 && (n + p) * bits as usize <= (3 * 64 + 8).max(w * bits as usize + 8)
+}
+/// the cases a monitor runs: all of them natively (and under ASan); under the reduced budgets of Miri / memcheck
+/// (every symbol costs tens of milliseconds there) only those of at most 100 symbols and 3 words (or one whole-word period of the codec, if longer), rotated by shard
+/// and seed so that the runs of one stage, and runs with different seeds, start at different cases
+pub fn exact_fit_cases_for(ctx: &crate::ctx::Ctx, bits: u8) -> Vec<(usize, usize)> {
+    let mut v = exact_fit_cases(bits);
+    if ctx.lite {
+        let w = v[0].0;
+        v.retain(|(n, p)| exact_fit_small(bits, w, *n, *p));
+        let k = (ctx.shard + ctx.seed as usize) % v.len().max(1);
+        v.rotate_left(k);
+    }
+    v
+}
+
+/// A monitor's list of lengths extended with the exact-fit cases: `(len, None)` = ordinary case (the monitor picks
+/// its pad), `(len, Some(pad))` = exact-fit case.  Under reduced budgets (Miri / memcheck: a handful of evaluations
+/// per group) the exact-fit cases come first and the whole list is rotated by the shard index, so that the shards
+/// of one stage see different parts; natively they are appended.
+pub fn exact_plan(ctx: &crate::ctx::Ctx, bits: u8, lens: Vec<usize>) -> Vec<(usize, Option<usize>)> {
+    let ex: Vec<(usize, Option<usize>)> = exact_fit_cases(bits).into_iter().filter(|(n, p)| !ctx.lite || exact_fit_small(bits, exact_fit_cases(bits)[0].0, *n, *p)).map(|(n, p)| (n, Some(p))).collect();
+    let ord: Vec<(usize, Option<usize>)> = lens.into_iter().map(|n| (n, None)).collect();
+    if ctx.lite {
+        let mut v = ex;
+        v.extend(ord);
+        let k = (ctx.shard * 2 + ctx.seed as usize) % v.len().max(1);
+        v.rotate_left(k);
+        v
+    } else {
+        let mut v = ord;
+        v.extend(ex);
+        v
+    }
 }
